@@ -62,6 +62,11 @@ class FailureNotice:
     def __repr__(self):
         return f"{self.__class__.__name__}(code={self.code!r}, data={self.data!r})"
 
+    def __eq__(self, other: object):
+        if not isinstance(other, FailureNotice):
+            return False
+        return self.code == other.code and self.data == other.data
+
 
 @dataclass
 class UnpackParams:
